@@ -21,15 +21,18 @@ theorem default_oparams_valid :
     oparamsValid defaultOParams.votePeriod defaultOParams.threshold defaultOParams.slashFraction defaultOParams.slashWindow defaultOParams.maxMiss = true := by
   decide
 
-theorem reachable_oparams (H : Str → Str) (ops : List Op) : ∀ (s : State), OParamsOk s → OParamsOk (run H s ops) := by
+theorem reachable_oparams (H : Str → Str) (ops : List Op) (hp : ∀ o ∈ ops, opParamsOk o) : ∀ (s : State), OParamsOk s → OParamsOk (run H s ops) := by
   induction ops with
   | nil => intro s h; exact h
-  | cons op r ih => intro s h; exact ih _ (step_oparams H s op h)
+  | cons op r ih =>
+    intro s h
+    exact ih (fun o ho => hp o (List.mem_cons_of_mem _ ho)) _ (step_oparams H s op (hp op List.mem_cons_self) h)
 
-theorem reachable_exportable (H : Str → Str) (pr : Nat) (c : Bool) (ops : List Op) (hops : ∀ o ∈ ops, opUtf8 o) :
+theorem reachable_exportable (H : Str → Str) (pr : Nat) (c : Bool) (ops : List Op) (hops : ∀ o ∈ ops, opUtf8 o)
+    (hp : ∀ o ∈ ops, opParamsOk o) :
     Exportable (run H (initState pr c) ops) := by
   obtain ⟨h1, h2⟩ := reachable_covers H pr c ops
-  refine ⟨h1, h2, reachable_oparams H ops _ ?_, reachable_utf8 H pr c ops hops⟩
+  refine ⟨h1, h2, reachable_oparams H ops hp _ ?_, reachable_utf8 H pr c ops hops⟩
   unfold OParamsOk
   exact default_oparams_valid
 
@@ -134,10 +137,41 @@ theorem reexport_is_identical (base s : State) (he : Exportable s) :
   unfold exportG
   rw [h2, h3, h5, h6, h7, h8, h9, h10]
 
-/-- for every state reachable by a transaction history the round trip succeeds (no panic) and is the identity on the export -/
-theorem roundtrip_on_reachable (H : Str → Str) (pr : Nat) (c : Bool) (ops : List Op) (hops : ∀ o ∈ ops, opUtf8 o) (base : State) :
+/-- the full statement of the property: for EVERY state reachable by a transaction history the round trip succeeds and is the
+identity on the export. It is **false of the code** (known finding, below): governance can store oracle parameters that fit one by one
+and not together, and the import refuses them. -/
+def RoundTripAlways : Prop :=
+  ∀ (H : Str → Str) (pr : Nat) (c : Bool) (ops : List Op), (∀ o ∈ ops, opUtf8 o) → ∀ base : State,
+    ∃ s', importG base (jsonG (exportG (run H (initState pr c) ops))) = some s' ∧ exportG s' = exportG (run H (initState pr c) ops)
+
+/-- **the part that holds**: for every state reachable by a transaction history whose oracle parameter changes fit together (every
+change made through the module's own `SetParams`, and every governance proposal that `Params.Validate` would pass) the round trip
+succeeds (no panic) and is the identity on the export -/
+theorem roundtrip_on_reachable_partial (H : Str → Str) (pr : Nat) (c : Bool) (ops : List Op) (hops : ∀ o ∈ ops, opUtf8 o)
+    (hp : ∀ o ∈ ops, opParamsOk o) (base : State) :
     ∃ s', importG base (jsonG (exportG (run H (initState pr c) ops))) = some s' ∧ exportG s' = exportG (run H (initState pr c) ops) :=
-  reexport_is_identical base _ (reachable_exportable H pr c ops hops)
+  reexport_is_identical base _ (reachable_exportable H pr c ops hops hp)
+
+/-- a governance proposal is held to less than the import: vote period 7 with a slash window of 8 passes every single-value check -/
+theorem governance_accepts_what_import_refuses :
+    oparamsKeyValid 7 (one18 / 2 : Nat) 0 8 3 = true ∧ oparamsValid 7 (one18 / 2 : Nat) 0 8 3 = false := by decide
+
+/-- the import of a document whose oracle parameters do not fit together panics, whatever else it holds -/
+theorem import_refuses_inconsistent_params (base : State) (g : Genesis)
+    (h : oparamsValid g.oparams.votePeriod g.oparams.threshold g.oparams.slashFraction g.oparams.slashWindow g.oparams.maxMiss = false) :
+    importG base g = none := by
+  unfold importG
+  simp only [h, Bool.not_false, if_true]
+  split <;> rfl
+
+/-- **the full statement is false of the code** (recorded as a known finding): one accepted governance proposal, then export and import -/
+theorem roundtrip_always_false : ¬ RoundTripAlways := by
+  intro h
+  obtain ⟨s', hs, _⟩ := h (fun x => x) 1000000 true [Op.setOParams 7 (one18 / 2 : Nat) 0 8 3]
+    (by intro o ho; simp only [List.mem_cons, List.mem_nil_iff, or_false] at ho; subst ho; trivial) (initState 1000000 true)
+  rw [import_refuses_inconsistent_params] at hs
+  · cases hs
+  · decide
 
 /-- the side condition is met by every history of transactions: only `inject` (a record written by an earlier import) carries it -/
 example : ∀ o ∈ [Op.record "a1" 1 [Char.ofNat 0xFF] (some 5) [] [] [] [], Op.prevote "o1" "v1" [Char.ofNat 0xFF] 0, Op.block], opUtf8 o := by
